@@ -7,6 +7,7 @@
 import Flumine.SimLoop
 import Flumine.Lemmas.WorldLemmas
 import Flumine.Lemmas.Ids
+import Flumine.Lemmas.Inv
 import Mathlib.Tactic.Linarith
 namespace Flumine.C15
 open Flumine Flumine.World
@@ -96,5 +97,37 @@ theorem order_ids_stable (w : World) (mid : Nat) (book : Book) (script : Nat →
 theorem order_never_lost (w : World) (mid : Nat) (book : Book) (script : Nat → List Action) (id : Nat)
     (h : OL.HasOrder w id) : OL.HasOrder (w.processMarketBook mid book script).1 id :=
   Ids.orders_never_lost w mid book script id h
+
+
+/-! ### C15 for every reachable state (invariant by induction over whole runs, `Lemmas/Inv.lean`) -/
+
+open Flumine.Inv in
+/-- C15 whole-run: after ANY sequence of market updates - packages executed, removals, matching,
+    completion, closure, any requests scripted by any strategies, starting from an empty framework -
+    no order id appears twice in a market's blotter, every id in it names exactly the order of that id
+    in the order table (so a lookup by order id returns that order), and the live list is part of the blotter -/
+theorem blotter_coherent_reachable (cfg : Config) (cl : List Client) (ss : List Strategy)
+    (us : List (Nat × Book × (Nat → List Action))) (mid : Nat) :
+    let w := runUpdates { cfg := cfg, clients := cl, strategies := ss } us
+    (w.market! mid).blotter.Nodup ∧
+    (∀ oid ∈ (w.market! mid).blotter, OL.HasOrder w oid ∧ (w.order! oid).id = oid) ∧
+    (∀ oid ∈ (w.market! mid).live, oid ∈ (w.market! mid).blotter) := by
+  intro w
+  have h : Inv w := inv_reachable cfg cl ss us
+  exact ⟨h.blotter_nodup mid, fun oid ho => ⟨h.blotter_hasOrder mid oid ho, OL.order!_id w oid (h.blotter_hasOrder mid oid ho)⟩, h.live_sub mid⟩
+
+open Flumine.Inv in
+/-- the invariant is preserved by one update from any well-formed world (the induction step) -/
+theorem blotter_coherent_step (w : World) (h : Inv w) (mid : Nat) (book : Book) (script : Nat → List Action) :
+    Inv (w.processMarketBook mid book script).1 :=
+  (good_processMarketBook w mid book script).2 h
+
+open Flumine.Inv in
+/-- order ids are creation indices in every reachable state: the n-th order created has id n -/
+theorem order_ids_are_indices (cfg : Config) (cl : List Client) (ss : List Strategy)
+    (us : List (Nat × Book × (Nat → List Action))) :
+    Ids.ids (runUpdates { cfg := cfg, clients := cl, strategies := ss } us) =
+      List.range (runUpdates { cfg := cfg, clients := cl, strategies := ss } us).orders.length :=
+  (inv_reachable cfg cl ss us).range
 
 end Flumine.C15
